@@ -350,6 +350,104 @@ def rule_lt_lex(rep, db):
 
 
 
+def rule_eq_form(rep, db):
+    """operator== of a value type is the CONJUNCTION of its component equalities: truth table over the component-equality
+    atoms (and any other atom the expression consults, treated as free)"""
+    import itertools
+    seen = set()
+    for fn in db.functions:
+        if fn.get("op") != "==" or len(fn.get("params", [])) != 2:
+            continue
+        u = fn["_unit"]
+        pts = [F.strip_targs((u.ty(p_["t"]) or "").replace("const ", "").replace(" &", "")) for p_ in fn["params"]]
+        if pts[0] != pts[1] or pts[0] not in EQ_TYPES or pts[0] in seen or not u.file_of(fn["primary"]).startswith("libs/"):
+            continue
+        rets = [r for r in F.walk(fn.get("body"), into_lambdas=False) if r.get("k") == "return"]
+        if len(rets) != 1:
+            continue
+        seen.add(pts[0])
+        pa, pb = fn["params"][0]["id"], fn["params"][1]["id"]
+        key = "%s operator==" % pts[0].replace("fcppt::", "")
+        atoms = {}
+
+        def leaf(t):
+            """('E', name) for a component equality, ('N', name) for a component inequality, ('F', text) otherwise"""
+            op = l = r = None
+            if isinstance(t, tuple) and t and t[0] == "b" and t[1] in ("==", "!="):
+                op, l, r = t[1], t[2], t[3]
+            elif isinstance(t, tuple) and t and t[0] == "c" and isinstance(t[1], str):
+                short = t[1].split("::")[-1]
+                ops = ([t[2]] if t[2] is not None else []) + list(t[3])
+                if short in ("operator==", "operator!=") and len(ops) == 2:
+                    op, l, r = short[8:], ops[0], ops[1]
+                elif short == "equal" and len(ops) in (3, 4):
+                    try:
+                        ka, sa = _side_key(ops[0], pa, pb)
+                        kb, sb = _side_key(ops[2], pa, pb)
+                        if ka == kb and sa != sb:
+                            return ("E", "elements[%s]" % ka)
+                    except _NoParse:
+                        pass
+                elif len(ops) == 2:
+                    try:
+                        ka, sa = _side_key(ops[0], pa, pb)
+                        kb, sb = _side_key(ops[1], pa, pb)
+                        if ka == kb and sa != sb and ka == "@":
+                            return ("E", "whole[%s]" % short)
+                    except _NoParse:
+                        pass
+            if op is not None:
+                try:
+                    ka, sa = _side_key(l, pa, pb)
+                    kb, sb = _side_key(r, pa, pb)
+                    if ka == kb and sa != sb:
+                        return ("E" if op == "==" else "N", ka)
+                except _NoParse:
+                    pass
+            return ("F", T.show(t))
+
+        def ev(t, val):
+            if isinstance(t, tuple) and t and t[0] == "b" and t[1] in ("&&", "||"):
+                a = ev(t[2], val)
+                if (t[1] == "&&") != a:
+                    return a
+                return ev(t[3], val)
+            if isinstance(t, tuple) and t and t[0] == "u" and t[1] == "!":
+                return not ev(t[2], val)
+            if isinstance(t, tuple) and t and t[0] == "cond":
+                return ev(t[2], val) if ev(t[1], val) else ev(t[3], val)
+            kind, name = leaf(t)
+            if kind == "N":
+                return not val[("E", name)]
+            return val[(kind, name)]
+
+        def collect(t):
+            if isinstance(t, tuple) and t and ((t[0] == "b" and t[1] in ("&&", "||")) or (t[0] == "u" and t[1] == "!") or t[0] == "cond"):
+                for x in t[1:]:
+                    if isinstance(x, tuple):
+                        collect(x)
+                return
+            kind, name = leaf(t)
+            atoms[("E" if kind == "N" else kind, name)] = True
+        t = T.snorm(u, fn, rets[0]["e"])
+        collect(t)
+        es = [a for a in atoms if a[0] == "E"]
+        fs = [a for a in atoms if a[0] == "F"]
+        if not es or len(atoms) > 8:
+            rep.note("EQ-FORM: %s is outside the accepted forms (%s); not decided" % (key, T.show(t)[:120]))
+            continue
+        why = None
+        order = es + fs
+        for row in itertools.product((True, False), repeat=len(order)):
+            val = dict(zip(order, row))
+            want = all(val[e] for e in es)
+            if ev(t, val) != want:
+                why = "with %s the result is %s; equality must hold exactly when every component compares equal" % (
+                    ", ".join("%s %s" % (n, ("equal" if v else "different") if k == "E" else ("true" if v else "false")) for (k, n), v in val.items()), ev(t, val))
+                break
+        (rep.fail if why else rep.ok)("EQ-FORM", key, F.primary_site(fn), F.describe(fn)[:160], **({"why": why} if why else {"how": "conjunction(%s)" % ", ".join(n for k, n in es)}))
+
+
 def main(rep, tier, only):
     db = load.load(tier, lib=False, drivers=["drv_compare", "drv_oev"])
     rep.extra.update(db.stats())
@@ -357,12 +455,15 @@ def main(rep, tier, only):
     rep.rule("DERIVED", "!=, >, <=, >= are derived from == / < in an accepted form", floor=15)
     rep.rule("EQ-COVER", "operator== reads every value component of the type on both operands", floor=10)
     rep.rule("LT-COVER", "operator< reads the same component set as == on both operands", floor=4)
+    rep.rule("EQ-FORM", "operator== of every value type is exactly the conjunction of its component equalities (truth table over the component "
+                        "atoms; any other condition the expression consults is a free atom and must not change the result)", floor=8)
     rep.rule("LT-LEX", "operator< of every fcppt value type is a lexicographic order of its components (some fixed order; truth table over "
                        "the 3^k relations of the components), or a whole-object delegation with the operands in order", floor=6)
     rep.rule("HASH-COH", "hash reads only (and at least one of) the components == compares", floor=4)
     rep.rule("OE-TABLE", "decision tables of optional ==, <, either ==", floor=3)
     acc = accessor_map(db)
     rule_lt_lex(rep, db)
+    rule_eq_form(rep, db)
     # ------------------------------------------------------------------ strong_typedef mirror
     seen = set()
     for fn in db.functions:
